@@ -264,3 +264,74 @@ def hyperv_gate(prop, cfg, tier, seed):
         _finish(ctx, accept, "HyperVFile() accepted an unsupported header")
 
     return ctx.run(body, cov_files=[HV_SRC])
+
+
+# ---- ESXi envelope ---------------------------------------------------------------------------------------------------
+
+ENV_SRC = loader.repo_path("dissect/hypervisor/util/envelope.py")
+
+
+class _Buf:
+    """io.BytesIO over symbolic bytes: sequential reads"""
+
+    def __init__(self, data):
+        from symx.sbytes import SymBytes
+
+        self.data, self.pos = SymBytes.lift(data), 0
+
+    def read(self, n=-1):
+        end = self.data.length() if n is None or (isinstance(n, int) and n < 0) else self.pos + n
+        r = self.data[self.pos:end]
+        self.pos = end
+        return r
+
+    def seek(self, off, whence=0):
+        self.pos = off if whence == 0 else self.pos + off
+        return self.pos
+
+    def tell(self):
+        return self.pos
+
+
+def envelope_gate(prop, cfg, tier, seed):
+    """Envelope.__init__: the attribute dictionary is the symbolic input (presence of each required attribute and the
+    cipher name are symbolic), header magic/version and the AEAD footer version are free words of the file."""
+    import io as real_io
+    import types
+
+    core.set_width(72)
+    m = loader.load(ENV_SRC)
+    m.c_envelope = layouts.CStructProxy(m.c_envelope)
+    ctx = _gate_ctx(prop, "gate.envelope", cfg, tier, seed)
+    FSIZE = 3 * 4096
+
+    def body(E, ctx):
+        fh = SymFile("img", size=FSIZE)
+        m.io = types.SimpleNamespace(BytesIO=_Buf, SEEK_END=real_io.SEEK_END, SEEK_SET=0, SEEK_CUR=1)
+        m.RangeStream = lambda *a, **kw: None
+        have = {k: E.boolvar("has_" + k.split(".")[1]) for k in ("vmware.keyInfo", "vmware.cipherName", "vmware.keyHash")}
+        gcm = E.boolvar("cipher_is_aes256gcm")
+        attrs_present = {k: bool(v) for k, v in have.items()}
+        is_gcm = bool(gcm)
+        attrs = {}
+        for k, p_ in attrs_present.items():
+            if p_:
+                val = ("AES-256-GCM" if is_gcm else "AES-128-CBC") if k.endswith("cipherName") else b"\x01" * 32
+                attrs[k] = m.EnvelopeAttribute(0xB if k.endswith("cipherName") else 0xC, 0, val)
+        m._read_envelope_attributes = lambda buf: attrs
+        magic = [files.byte_at("img", k) for k in range(21)]
+        version = files.word_at("img", 508, 4, "le")
+        fver = files.word_at("img", FSIZE - 4096 + 4092, 4, "le")
+        vars_ = dict(version=version, footer_version=fver, **{f"magic{k}": b for k, b in enumerate(magic)})
+
+        def build(model):
+            fd = files_desc(model, E.apps, seed, ("img",), size=FSIZE)
+            return dict(entry="envelope", params=dict(present=attrs_present, gcm=is_gcm), files=fd, call=["open"])
+
+        ctx.scenario = Scenario(vars_, build, lambda mo, d: dict(returns=True))
+        m.Envelope(fh)
+        accept = core.sym_and(*[b == c for b, c in zip(magic, b"DataTransformEnvelope")], version == 2,
+                              all(attrs_present.values()), is_gcm, fver == 1)
+        _finish(ctx, accept, "Envelope() accepted an unsupported envelope")
+
+    return ctx.run(body, cov_files=[ENV_SRC])
